@@ -74,19 +74,34 @@ def validate_data(memory_geff: InMemoryGeff, config: ValidationConfig) -> None:
 
     if meta.track_node_props is not None:
         if config.tracklet and "tracklet" in meta.track_node_props:
-            node_ids = memory_geff["node_ids"]
             edge_ids = memory_geff["edge_ids"]
             tracklet_key = meta.track_node_props["tracklet"]
-            tracklet_ids = memory_geff["node_props"][tracklet_key]["values"]
+            node_ids, tracklet_ids = _nodes_with_id(memory_geff, tracklet_key)
             valid, errors = validate_tracklets(node_ids, edge_ids, tracklet_ids)
             if not valid:
                 raise ValueError("Found invalid tracklets:\n", "\n".join(errors))
 
         if config.lineage and "lineage" in meta.track_node_props:
-            node_ids = memory_geff["node_ids"]
             edge_ids = memory_geff["edge_ids"]
             lineage_key = meta.track_node_props["lineage"]
-            lineage_ids = memory_geff["node_props"][lineage_key]["values"]
+            node_ids, lineage_ids = _nodes_with_id(memory_geff, lineage_key)
             valid, errors = validate_lineages(node_ids, edge_ids, lineage_ids)
             if not valid:
                 raise ValueError("Found invalid lineages:\n", "\n".join(errors))
+
+
+def _nodes_with_id(memory_geff: InMemoryGeff, prop_name: str) -> tuple[np.ndarray, np.ndarray]:
+    """Node ids and values of a tracklet/lineage id property, without the nodes whose id
+    is flagged missing.
+
+    A node without an id belongs to no tracklet/lineage: the fill value stored at its
+    position must not be read as an id. All edges are kept, so a tracklet or lineage
+    attached to a node without an id is still reported as invalid.
+    """
+    node_ids = memory_geff["node_ids"]
+    prop = memory_geff["node_props"][prop_name]
+    values, missing = prop["values"], prop.get("missing")
+    if missing is not None:
+        present = ~np.asarray(missing, dtype=bool)
+        node_ids, values = node_ids[present], values[present]
+    return node_ids, values
